@@ -36,8 +36,10 @@ CHECKS = {
          "Lean 4 proof (list sums, Perm) + metamorphic correspondence (split / permute / scale) on whole-plant runs"),
  "C12": ("Theorems over a generic state machine of object reuse (set inputs / balance / read result / query) for ANY balance and result function: a calculation with freshly supplied inputs gives the outputs of a fresh object after any history, repeating it changes nothing, queries leave the state unchanged and answer the same twice. PARTIAL by nature of the technique: a value model cannot exhibit Python aliasing or hidden state, so the force of the check is the correspondence: histories of 2-4 calculations on one real object (all plant types and the MachineryCalculation front end) compared after every step with a fresh object, with snapshots of the caller-owned arrays, with repeated balances / result reads and interleaved queries incl. protobuf export.",
          "Lean 4 proof over a generic reuse state machine + history-based correspondence (reused vs fresh object, caller-array snapshots)"),
- "C15": ("Theorems over the model of min_load_table_dict + PmsLoadTable.on_pattern for every list of positive ratings (any length >= 1), every positive fraction and every load: sufficient (strictly above the load whenever some set is), all-on otherwise, minimal among non-empty sets, monotone, non-empty, loading <= fraction after an equal-sharing balance; and for the equal-size rule of feems.runsimulation (ceil): non-empty, sufficient, minimal, monotone. Proofs use only 'sorted + permutation of all patterns'. Correspondence compares table lookups exactly (integer ratings x dyadic fractions make double thresholds exact) incl. every threshold, ties, negative loads and loads above capacity; the MachineryCalculation front end is exercised by C16/C12.",
+ "C15": ("Theorems over the model of min_load_table_dict + PmsLoadTable.on_pattern for every list of positive ratings (any length >= 1), every positive fraction and every load: sufficient (strictly above the load whenever some set is), all-on otherwise, minimal among non-empty sets, monotone, non-empty, loading <= fraction after an equal-sharing balance; and for the equal-size rule of feems.runsimulation (ceil): non-empty, sufficient, minimal, monotone. Proofs use only 'sorted + permutation of all patterns'. Correspondence compares table lookups exactly (integer ratings x dyadic fractions make double thresholds exact) incl. every threshold, ties, negative loads and loads above capacity; plus whole MachineryCalculation runs on plants with 1-4 switchboards: no running source above the allowed fraction when avoidable, at least one source runs.",
          "Lean 4 proof (sortedness + permutation argument over the pattern table) + model/implementation correspondence at and around every switching threshold"),
+ "C16": ("Theorems over the model of the four input routes: a Gymir result, the same time-stamped series, a protobuf message with unset per-sample auxiliary power and the operating points (P[:-1], diff t) give identical prepared inputs (and per-sample auxiliary power agrees between the series and protobuf routes); sample k is held for t[k+1]-t[k], the last sample contributes no power, the intervals add up to the span of the stamps; one auxiliary value = the constant series, a series is cut to the number of intervals; equal division among propulsors / auxiliary loads adds up to the whole; equal inputs give equal results. Correspondence: the four real entry points on electric / mechanical+electric / hybrid plants with 1-4 switchboards vs the model's prepared inputs, and the routes' results against each other.",
+         "Lean 4 proof (list lemmas) + correspondence of all four real entry points against the model and each other"),
  "C17": ("Theorems over the storage model: energy = interval-weighted sum of terminal power x charging efficiency / discharging efficiency after converter loss, SoC formula (battery kWh, supercapacitor Wh), accumulated series starts at 0, has n+1 entries and ends at the total, stored energy never exceeds terminal energy for any series (so equal charge and discharge never raise the SoC), closed form for one charge/discharge. The converter is an abstract function constrained only by 'never creates energy'; in the correspondence its per-sample value is an oracle read from the real converter.",
          "Lean 4 proof (induction over series, nlinarith) + model/implementation correspondence with converter oracle"),
  "C19": ("Theorems over the model of FEEMSResult.__merge: every float field, fuel kind, species of either operand and CO2 component added, detail concatenated, duration/load rules of both modes, associativity (same-period: whenever defined; consecutive-period: positive durations and operands that carry a generator load whenever they carry a duration — the excluded case is proved non-associative and is known finding D18), empty result neutral. Operands-unchanged by correspondence only.",
